@@ -5,6 +5,7 @@ import Mathlib.Tactic.Linarith
 import Mathlib.Data.Rat.Defs
 import Mathlib.Algebra.Order.Field.Rat
 import Mathlib.Data.List.Sort
+import AtsimModel.Lemmas.KernelQ
 /-!
 # C18 — tabulated input is reproduced at its data points and is zero outside its range
 
@@ -252,4 +253,17 @@ example : StrictX [(0, 0), (1, 10), (2, 25)] := by
 example : tableReader [(2, 25), (0, 0), (1, 10)] (3/2) = 35/2 ∧ tableReader [(2, 25), (0, 0), (1, 10)] 2 = 25 ∧ tableReader [(2, 25), (0, 0), (1, 10)] 3 = 0 := by
   decide +kernel
 
+end Atsim.C18
+
+/-! ## kernel ties: the arithmetic the code uses at these places, regenerated from the source on every run, is the model's -/
+namespace Atsim.C18
+open Atsim.Gen Atsim.E
+set_option linter.unusedTactic false
+set_option linter.unusedSimpArgs false
+/-- `plotToFile`: the i-th abscissa computed from the regenerated `step` and `v` expressions is the i-th element of `plotXs` -/
+theorem C18_kernel_plot (lowx highx : Rat) (steps i : Nat) (h : i < steps) :
+    (plotXs lowx highx steps)[i]? = some (evalQ (envQ [lowx, i, evalQ (envQ [lowx, highx, steps]) k_plot_step]) k_plot_v) := by
+  simp only [plotXs, List.getElem?_map, List.getElem?_range h, Option.map_some, Option.some.injEq]
+  kernel_unfold [k_plot_step, k_plot_v]
+  kernel_close
 end Atsim.C18
